@@ -1014,3 +1014,48 @@ def rt_rebinding_forms(req):
 
 
 RT['rebinding_forms'] = rt_rebinding_forms
+
+
+# ----------------------------------------------------------------------------- str.split(',') + re_paramname vs Model/ReadSigText.lean
+def _text_line(t):
+    return '.'.join(str(ord(c)) for c in t) or '_'
+
+
+def real_resplit(req):
+    from sigtools import support
+    text = req[1]
+    out = []
+    for part in text.split(','):
+        if not part:
+            continue
+        m = support.re_paramname.match(part)
+        out.append(None if m is None else m.groups())
+    return ('ok', tuple(out))
+
+
+OPS['resplit'] = real_resplit
+
+_line0 = line
+_parse0 = parse_model
+
+
+def line(req):        # noqa: F811
+    if req[0] == 'resplit':
+        return 'resplit ' + _text_line(req[1])
+    return _line0(req)
+
+
+def parse_model(req, ml):      # noqa: F811
+    if req[0] == 'resplit':
+        toks = ml.split()
+        dec = lambda s: None if s == '-' else ('' if s == 'e' else ''.join(chr(int(x)) for x in s.split('.')))  # noqa
+        out = []
+        if len(toks) > 1 and toks[1] != '_':
+            for part in toks[1].split(','):
+                if part == 'N':
+                    out.append(None)
+                else:
+                    n, a, d = part.split('|')
+                    out.append((dec(n), dec(a), dec(d)))
+        return ('ok', tuple(out))
+    return _parse0(req, ml)
